@@ -1,6 +1,12 @@
-(* pyais/filter.py, statement by statement (the code AFTER the C19 repair: the two geographic filters test
+(* pyais/filter.py, statement by statement (the code AFTER the C19 repairs: the two geographic filters test
    `getattr(msg, 'lat', None) is not None and getattr(msg, 'lon', None) is not None` where the unchanged code
-   tested `hasattr(msg, 'lat')`; the unchanged bodies are kept below as [*_unrepaired] for the record).
+   tested `hasattr(msg, 'lat')`; NoneFilter reads the listed attributes through `_attr_or_none`, which turns the
+   TypeError / ValueError of a computed attribute that cannot be computed for the message into None, where the
+   unchanged code called `getattr(msg, attr, None)` directly; the unchanged bodies are kept below as
+   [*_unrepaired] for the record).
+
+   Reading an attribute is an effect (Prim/PyObj.v): the getter of a computed attribute may raise.  Every read in
+   this file is therefore in the exception monad, in Python's evaluation order, with `and` / all() short-circuits.
 
    Generators are modelled by their observable behaviour: the finite sequence of yielded messages followed by
    either normal exhaustion or the exception that killed the generator ([mgen]).  Laziness of nested generators
@@ -88,12 +94,31 @@ Section WithDistance.
   (* AttributeFilter.filter_data:   yield from filter(self.ff, data) *)
   Definition attribute_body (ff : pymsg -> M bool) (m : pymsg) : M bool := ff m.
 
-  (* NoneFilter.filter_data:
+  (* def _attr_or_none(msg, attr):
+         try:
+             return getattr(msg, attr, None)
+         except (TypeError, ValueError):
+             return None
+     getattr with a default absorbs AttributeError only; the handler absorbs TypeError and ValueError (and their
+     subclasses); any other exception of a getter propagates. *)
+  Definition attr_or_none (m : pymsg) (attr : string) : M aval :=
+    try_except (py_getattr_d m attr ANone) [HPy TypeError; HPy ValueError] (fun _ => Ok ANone).
+
+  (* NoneFilter.filter_data (repaired):
        for msg in data:
-           if all(getattr(msg, attr, None) is not None for attr in self.attrs):
-               yield msg *)
-  Definition none_body (attrs : list string) (m : pymsg) : M bool :=
-    Ok (forallb (fun attr => py_is_not_none (py_getattr_d m attr ANone)) attrs).
+           if all(_attr_or_none(msg, attr) is not None for attr in self.attrs):
+               yield msg
+     all() pulls the generator expression left to right and stops at the first falsy element: an attribute after
+     the first None one is not read (so a getter that would raise there is not reached); an exception that
+     _attr_or_none lets through propagates out of all() and kills the generator. *)
+  Fixpoint none_all (m : pymsg) (attrs : list string) : M bool :=
+    match attrs with
+    | [] => Ok true
+    | attr :: rest =>
+      v <- attr_or_none m attr ;;
+      if py_is_not_none v then none_all m rest else Ok false
+    end.
+  Definition none_body (attrs : list string) (m : pymsg) : M bool := none_all m attrs.
 
   (* MessageTypeFilter.filter_data:
        for msg in data:
@@ -103,6 +128,15 @@ Section WithDistance.
   Definition message_type_body (types : list Z) (m : pymsg) : M bool :=
     if negb (existsb (Z.eqb (pm_type m)) types) then Ok false else Ok true.
 
+  (* getattr(msg, 'lat', None) is not None and getattr(msg, 'lon', None) is not None
+     (`and` evaluates its right operand only when the left one is true) *)
+  Definition has_lat_lon (m : pymsg) : M bool :=
+    lat <- py_getattr_d m "lat" ANone ;;
+    if py_is_not_none lat then
+      lon <- py_getattr_d m "lon" ANone ;;
+      Ok (py_is_not_none lon)
+    else Ok false.
+
   (* DistanceFilter.filter_data (repaired):
        for msg in data:
            if getattr(msg, 'lat', None) is not None and getattr(msg, 'lon', None) is not None:
@@ -110,7 +144,8 @@ Section WithDistance.
                    continue
            yield msg *)
   Definition distance_body (ref_lat_lon : lat_lon) (distance_km : ratio) (m : pymsg) : M bool :=
-    if py_is_not_none (py_getattr_d m "lat" ANone) && py_is_not_none (py_getattr_d m "lon" ANone) then
+    c <- has_lat_lon m ;;
+    if c then
       lat <- py_getattr m "lat" ;;
       lon <- py_getattr m "lon" ;;
       h <- haversine ref_lat_lon (lat, lon) ;;
@@ -124,25 +159,38 @@ Section WithDistance.
                    continue
            yield msg *)
   Definition grid_body (lat_min lon_min lat_max lon_max : ratio) (m : pymsg) : M bool :=
-    if py_is_not_none (py_getattr_d m "lat" ANone) && py_is_not_none (py_getattr_d m "lon" ANone) then
+    c <- has_lat_lon m ;;
+    if c then
       lat <- py_getattr m "lat" ;;
       lon <- py_getattr m "lon" ;;
       g <- is_in_grid lat lon lat_min lon_min lat_max lon_max ;;
       if negb g then Ok false else Ok true
     else Ok true.
 
-  (* the bodies of the unchanged code (before the fix: commit), for the record and for [C19_unrepaired_raises]:
-       if hasattr(msg, 'lat'):
+  (* the bodies of the unchanged code (before the fix: commits), for the record and for [C19_unrepaired_raises] /
+     [C19_nonefilter_unrepaired_raises]:
+       if all(getattr(msg, attr, None) is not None for attr in self.attrs):      -- NoneFilter: absorbs AttributeError only *)
+  Fixpoint none_all_unrepaired (m : pymsg) (attrs : list string) : M bool :=
+    match attrs with
+    | [] => Ok true
+    | attr :: rest =>
+      v <- py_getattr_d m attr ANone ;;
+      if py_is_not_none v then none_all_unrepaired m rest else Ok false
+    end.
+  Definition none_body_unrepaired (attrs : list string) (m : pymsg) : M bool := none_all_unrepaired m attrs.
+  (*   if hasattr(msg, 'lat'):                                                    -- DistanceFilter / GridFilter
            if haversine(self.ref_lat_lon, (msg.lat, msg.lon)) >= self.distance_km: continue *)
   Definition distance_body_unrepaired (ref_lat_lon : lat_lon) (distance_km : ratio) (m : pymsg) : M bool :=
-    if py_hasattr m "lat" then
+    c <- py_hasattr m "lat" ;;
+    if c then
       lat <- py_getattr m "lat" ;;
       lon <- py_getattr m "lon" ;;
       h <- haversine ref_lat_lon (lat, lon) ;;
       if ratio_geb h distance_km then Ok false else Ok true
     else Ok true.
   Definition grid_body_unrepaired (lat_min lon_min lat_max lon_max : ratio) (m : pymsg) : M bool :=
-    if py_hasattr m "lat" then
+    c <- py_hasattr m "lat" ;;
+    if c then
       lat <- py_getattr m "lat" ;;
       lon <- py_getattr m "lon" ;;
       g <- is_in_grid lat lon lat_min lon_min lat_max lon_max ;;
@@ -225,23 +273,40 @@ Section WithDistance.
     Ok (filter_chain_filter c decode stream).
 End WithDistance.
 
+(* ---- a recorded witness --------------------------------------------------------------------------------- *)
+(* The type 18 report with payload bits 010010 followed by 100 zeros (cut before the radio field), as pyais decodes
+   it and as the harness describes it to this model: every field of asdict(), then the computed attributes of
+   MessageType18 in reflection order.  The three properties of CommunicationStateMixin cannot be computed (radio
+   is None): reading them raises TypeError.  The harness re-derives this description from the implementation on
+   every run (driver command c19witness) and reports a difference. *)
+Definition filter_truncated_type18 : pymsg :=
+  let z := Ok (ANum (ratio_of_Z 0)) in
+  let n := @Ok aval ANone in
+  let x := @Raise aval (Py TypeError) in
+  mkPyMsg 18
+    [("msg_type", Ok (ANum (ratio_of_Z 18))); ("repeat", z); ("mmsi", z); ("reserved_1", z); ("speed", z);
+     ("accuracy", z); ("lon", z); ("lat", z); ("course", n); ("heading", n); ("second", n); ("reserved_2", n);
+     ("cs", n); ("display", n); ("dsc", n); ("band", n); ("msg22", n); ("assigned", n); ("raim", n); ("radio", n);
+     ("MAX_COMM_STATE_VALUE", Ok (ANum (ratio_of_Z 524287))); ("SOTDMA_ITDMA_TYPES", Ok (AOther true));
+     ("SOTDMA_TYPES", Ok (AOther true)); ("communication_state_raw", x); ("is_itdma", x); ("is_sotdma", x)]%string.
+
 (* ---- user predicates used by the correspondence check ------------------------------------------------- *)
 (* The theorems hold for every [ff : msg -> M bool].  The harness needs concrete ones on both sides; each
    constructor is one Python lambda (written out in tools/props/C19.py). *)
 Inductive upred :=
 | UConst (b : bool)                 (* lambda m: b *)
-| UNotNone (name : string)          (* lambda m: getattr(m, name, None) is not None *)
-| UHas (name : string)              (* lambda m: hasattr(m, name) *)
-| UTruthy (name : string)           (* lambda m: getattr(m, name, None)         -- 0 and 0.0 are falsy *)
+| UNotNone (name : string)          (* lambda m: getattr(m, name, None) is not None   -- a getter may raise *)
+| UHas (name : string)              (* lambda m: hasattr(m, name)                     -- a getter may raise *)
+| UTruthy (name : string)           (* lambda m: getattr(m, name, None)         -- 0 and 0.0 are falsy; may raise *)
 | ULt (name : string) (q : ratio)     (* lambda m: getattr(m, name) < q           -- may raise *)
 | UTypeEq (t : Z).                  (* lambda m: m.msg_type == t *)
 
 Definition upred_eval (p : upred) (m : pymsg) : M bool :=
   match p with
   | UConst b => Ok b
-  | UNotNone name => Ok (py_is_not_none (py_getattr_d m name ANone))
-  | UHas name => Ok (py_hasattr m name)
-  | UTruthy name => Ok (py_truthy (py_getattr_d m name ANone))
+  | UNotNone name => v <- py_getattr_d m name ANone ;; Ok (py_is_not_none v)
+  | UHas name => py_hasattr m name
+  | UTruthy name => v <- py_getattr_d m name ANone ;; Ok (py_truthy v)
   | ULt name q => v <- py_getattr m name ;; py_lt v (ANum q)
   | UTypeEq t => Ok (pm_type m =? t)
   end.
